@@ -494,7 +494,7 @@ func c18Reject(c *core.Ctx, k *core.Case) {
 
 // oracle "plmn": I=[mccLo, mccHi) — every MNC the setter accepts
 func c18Plmn(c *core.Ctx, k *core.Case) {
-	var n int64
+	var n, prior int64
 	for mcc := int(k.I[0]); mcc < int(k.I[1]); mcc++ {
 		for mnc := 9; mnc <= 999; mnc++ {
 			var sl uePolicyContainer.UEPolicySectionManagementSubList
@@ -518,10 +518,38 @@ func c18Plmn(c *core.Ctx, k *core.Case) {
 			if got := []byte{sr.PlmnDigit1, sr.PlmnDigit2, sr.PlmnDigit3}; !bytes.Equal(got, want) {
 				c.Fail(kk, "plmn-digit-order:subresult", fmt.Sprintf("SetPlmnDigit(%d,%d) = %x, every other PLMN encoder of the library (TS 24.008) gives %x", mcc, mnc, got, want))
 			}
+			// the setter determines the three octets whatever the element held before: another
+			// PLMN, or - as a decoder leaves it for an MNC 0xy sent with three digits - the same
+			// integers recorded next to the three-digit coding
+			for variant := 0; variant < 2; variant++ {
+				var pl uePolicyContainer.UEPolicySectionManagementSubList
+				var pr uePolicyContainer.UEPolicySectionManagementSubResult
+				if variant == 0 {
+					om, on := 100+(mcc*7+mnc)%900, 10+(mcc+mnc*13)%990
+					_, _ = pl.SetPlmnDigit(om, on), pr.SetPlmnDigit(om, on)
+				} else {
+					if mnc >= 100 {
+						continue
+					}
+					m1, n1, m2, n2 := mcc, mnc, mcc, mnc
+					three := refconv.PlmnWire(mc, "0"+mn)
+					pl.Mcc, pl.Mnc, pl.PlmnDigit1, pl.PlmnDigit2, pl.PlmnDigit3 = &m1, &n1, three[0], three[1], three[2]
+					pr.Mcc, pr.Mnc, pr.PlmnDigit1, pr.PlmnDigit2, pr.PlmnDigit3 = &m2, &n2, three[0], three[1], three[2]
+				}
+				_, _ = pl.SetPlmnDigit(mcc, mnc), pr.SetPlmnDigit(mcc, mnc)
+				prior++
+				if got := []byte{pl.PlmnDigit1, pl.PlmnDigit2, pl.PlmnDigit3}; !bytes.Equal(got, want) {
+					c.Fail(kk, "plmn-setter-depends-on-prior-state:sublist", fmt.Sprintf("SetPlmnDigit(%d,%d) on a sublist that held another coding (variant %d) leaves %x, on a fresh one %x", mcc, mnc, variant, got, want))
+				}
+				if got := []byte{pr.PlmnDigit1, pr.PlmnDigit2, pr.PlmnDigit3}; !bytes.Equal(got, want) {
+					c.Fail(kk, "plmn-setter-depends-on-prior-state:subresult", fmt.Sprintf("SetPlmnDigit(%d,%d) on a sub result that held another coding (variant %d) leaves %x, on a fresh one %x", mcc, mnc, variant, got, want))
+				}
+			}
 		}
 	}
-	c.Eval(n)
+	c.Eval(n + prior)
 	c.Count("plmn_pairs", n)
+	c.Count("plmn_setter_calls_on_used_elements", prior)
 }
 
 func c18PlmnOne(c *core.Ctx, k *core.Case) {
